@@ -76,6 +76,102 @@ def slice_box(n):
                 yield slice(a, b, st)
 
 
+def unit_vector_long(unit):
+    """size thresholds for indexing: vectors of 17 / 33 / 65 / 129 elements - every integer index, slices over a grid of
+    start / stop / step values around the ends and the middle, masks and index vectors of designated patterns; tables of the
+    same heights with the same row keys (rows and columns must still commute)"""
+    from serif import Vector, Table
+    _, kind = unit
+    agg = Agg()
+    for n in (17, 33, 65, 129):
+        vals = [None if (kind == "int?" and i % 7 == 3) else KINDS[kind.rstrip("?")][i % 6] if kind != "int" else 1000 + i for i in range(n)]
+        if kind == "str":
+            vals = [f"s{i}" for i in range(n)]
+        v = Vector(list(vals), name="nm")
+        t = Table([Vector(list(vals), name="a"), Vector(list(range(n)), name="b")])
+        case0 = {"family": "long vectors", "kind": kind, "len": n}
+        for i in list(range(-n - 2, n + 2)):
+            agg.evals += 1; agg.transitions += 1; agg.compared += 1
+            try:
+                got = v[i]
+                ok_ = -n <= i < n and same_list([got], [vals[i]])
+            except Exception:
+                ok_ = not (-n <= i < n)
+            if not ok_:
+                agg.violation(V("vector.getitem.int.long", "wrong-element-or-out-of-range-accepted", dict(case0, key=i)))
+            else:
+                agg.outcomes["int-ok"] += 1
+        edge = [None, 0, 1, 2, n // 2 - 1, n // 2, n - 2, n - 1, n, n + 5, -1, -2, -n // 2, -n + 1, -n, -n - 3]
+        for a in edge:
+            for b in edge:
+                for st in (None, 1, 2, 3, 7, -1, -2, -5, n, -n):
+                    sl = slice(a, b, st)
+                    want = list(vals)[sl]
+                    agg.evals += 1; agg.transitions += 2; agg.states += 1
+                    if want and len(want) < n:
+                        agg.nontrivial += 1
+                    case = dict(case0, key=[a, b, st])
+                    try:
+                        check_result(agg, "vector.getitem.slice.long", v, v[sl], want, case)
+                        tr = t[sl]
+                        agg.compared += 1
+                        if not same_list(list(tr._underlying[0]._underlying), want) or list(tr._underlying[1]._underlying) != list(range(n))[sl]:
+                            agg.violation(V("table.getitem.rows.long", "wrong-cells", case))
+                        else:
+                            agg.outcomes["slice-forward" if (st or 1) > 0 else "slice-reversed"] += 1
+                    except Exception as e:
+                        agg.violation(V("vector.getitem.slice.long", "raises-" + type(e).__name__, case, want[:10], repr(e)[:80]))
+        masks_ = {"every-2nd": [i % 2 == 0 for i in range(n)], "first-half": [i < n // 2 for i in range(n)], "last-only": [i == n - 1 for i in range(n)],
+                  "none": [False] * n, "all": [True] * n, "every-7th": [i % 7 == 6 for i in range(n)]}
+        for mname, bits in masks_.items():
+            want = [x for x, b in zip(vals, bits) if b]
+            for form in ("list", "vector"):
+                agg.evals += 1; agg.transitions += 2; agg.states += 1; agg.nontrivial += 1
+                case = dict(case0, mask=mname, form=form)
+                key = list(bits) if form == "list" else Vector(list(bits))
+                try:
+                    check_result(agg, "vector.getitem.mask.long", v, v[key], want, case)
+                    tr = t[key]
+                    agg.compared += 1
+                    if not same_list(list(tr._underlying[0]._underlying), want):
+                        agg.violation(V("table.getitem.rows.long", "wrong-cells", case))
+                    else:
+                        agg.outcomes["mask-ok"] += 1
+                except Exception as e:
+                    agg.violation(V("vector.getitem.mask.long", "raises-" + type(e).__name__, case, None, repr(e)[:80]))
+            for wrong in (bits[:-1], bits + [True]):
+                agg.evals += 1; agg.compared += 1
+                try:
+                    r = v[list(wrong)]
+                    agg.violation(V("vector.getitem.mask.long", "wrong-length-mask-accepted", dict(case0, mask=mname, mask_len=len(wrong)), "error", len(r._underlying)))
+                except Exception:
+                    agg.outcomes["mask-wrong-length"] += 1
+        for iname, idx in {"reversed": list(range(n - 1, -1, -1)), "ends": [0, n - 1, -1, -n, n // 2], "repeats": [n - 1] * 3 + [0] * 2, "every-3rd": list(range(0, n, 3))}.items():
+            want = [vals[i] for i in idx]
+            agg.evals += 1; agg.transitions += 1; agg.states += 1; agg.nontrivial += 1
+            case = dict(case0, index_vector=iname)
+            try:
+                check_result(agg, "vector.getitem.indexlist.long", v, v[Vector(list(idx))], want, case)
+                agg.outcomes["indexlist-ok"] += 1
+            except Exception as e:
+                agg.violation(V("vector.getitem.indexlist.long", "raises-" + type(e).__name__, case, None, repr(e)[:80]))
+        # comparisons on long vectors: elementwise, non-nullable bool
+        for opn, op in CMP.items():
+            other = list(vals[1:]) + [vals[0]]
+            if _python_raises(op, vals, other):
+                continue
+            agg.evals += 2; agg.transitions += 2
+            try:
+                check_bool_result(agg, f"compare.{opn}.long", op(Vector(list(vals)), Vector(list(other))), expected_cmp(op, vals, other), dict(case0, op=opn, form="vv"))
+                pivot = next(x for x in vals if x is not None)
+                check_bool_result(agg, f"compare.{opn}.long", op(Vector(list(vals)), pivot), expected_cmp(op, vals, [pivot] * n), dict(case0, op=opn, form="vs"))
+                agg.outcomes["cmp-ok"] += 1
+            except Exception as e:
+                agg.violation(V(f"compare.{opn}.long", "raises-" + type(e).__name__, dict(case0, op=opn), None, repr(e)[:80]))
+    agg.sample({"family": "long vectors", "kind": kind})
+    return agg
+
+
 def unit_vector(unit):
     from serif import Vector
     _, kind, n = unit
@@ -787,6 +883,7 @@ def check(ctx):
     L = ctx.pick(2, 3)
     units = [("vec", k, n) for k in KINDS for n in range(0, N + 1)]
     parts = core.pmap(unit_vector, units)
+    parts += core.pmap(unit_vector_long, [("veclong", k) for k in ("int", "str", "float", "int?")])
     parts += core.pmap(unit_compare, [("cmp", k, L) for k in CMP_ALPHA])
     parts += core.pmap(unit_compare_cross, [("cmpx", i, L) for i in range(len(CROSS))])
     tunits = [("tab", names, r) for names in NAME_SETS for r in range(0, R + 1)]
